@@ -530,6 +530,55 @@ func casterMisuse(h *hctx) {
 		}
 		h.count("sticky_sequence", 1)
 	}
+	casterBuffered(h)
+}
+
+// casterBuffered: ChanCaster accepts a buffered channel (nothing in its documentation or code excludes one, and the
+// repository's own TestChanCaster_Send_multipleRacingSenders uses one), but Send then returns while its copies still sit
+// in the buffer.  Two deterministic single-goroutine histories, each following the documented usage pattern
+// (Coq: C08_buffered_giveup_panics_refuted, C08_buffered_misdelivery_refuted on Model/CasterBuf.v; the unbuffered
+// control of each passes, C08_unbuffered_clean).
+func casterBuffered(h *hctx) {
+	// (A) registered receiver; Send (returns 1, the copy is buffered); the receiver's select takes another case, so it
+	// withdraws with the documented inverse Add
+	{
+		x := NewChanCaster(make(chan int, 1))
+		add := func(d int) casterCallRes { return casterTimed(func() (int, bool) { return casterSafeAdd(x, d) }) }
+		r := add(1)
+		s := casterTimed(func() (int, bool) { return casterSafeSend(x, 42) })
+		if r.panicked || r.blocked || s.panicked || s.blocked || s.ret != 1 {
+			h.line("MONITOR C08 buffered(cap=1): unexpected outcome of Add(1);Send: add=%+v send=%+v", r, s)
+		} else if g := add(-1); g.blocked {
+			h.line("MONITOR C08 buffered(cap=1): Add(-1) blocked for 2 s (sequence Add(1);Send;Add(-1))")
+		} else if g.panicked {
+			h.line("MONITOR C08 buffered(cap=1): the documented inverse Add(-1) of a registered receiver that has not received panicked after Send returned with its copy still buffered (sequence Add(1);Send;Add(-1))")
+		}
+		h.count("buffered_giveup_sequence", 1)
+	}
+	// (B) no withdrawal at all: R1 registers, Send#1, R2 registers after Send#1 returned, R2 receives, Send#2, R1 receives
+	{
+		x := NewChanCaster(make(chan int, 1))
+		recv := func() (int, bool) {
+			select {
+			case v := <-x.C:
+				return v, true
+			case <-time.After(casterHangDur):
+				return 0, false
+			}
+		}
+		a1, _ := casterSafeAdd(x, 1)
+		n1 := casterTimed(func() (int, bool) { return casterSafeSend(x, 1) })
+		a2, _ := casterSafeAdd(x, 1)
+		v2, ok2 := recv()
+		n2 := casterTimed(func() (int, bool) { return casterSafeSend(x, 2) })
+		v1, ok1 := recv()
+		if a1 != 1 || a2 != 1 || n1.ret != 1 || n2.ret != 1 || n1.panicked || n2.panicked || n1.blocked || n2.blocked || !ok1 || !ok2 {
+			h.line("MONITOR C08 buffered(cap=1): unexpected outcome of Add(1);Send(1);Add(1);recv;Send(2);recv: %d %+v %d %+v recv=%v,%v", a1, n1, a2, n2, ok2, ok1)
+		} else if v2 == 1 && v1 == 2 {
+			h.line("MONITOR C08 buffered(cap=1): the value of Send#1 was received by a receiver registered after Send#1 returned, and the receiver registered before it got Send#2's (sequence Add(1);Send(1);Add(1);recv;Send(2);recv)")
+		}
+		h.count("buffered_misdelivery_sequence", 1)
+	}
 }
 
 // ---------------------------------------------------------------------------------------------------------------
